@@ -30,11 +30,16 @@ def run_shard(desc):
 
 def check_case(root, spec, pps, absolute, cfg, out, armed):
     texts = [A.render_path(pp) for pp in pps]
-    if absolute:
+    mixed = absolute == 'mixed'
+    if mixed:
+        texts = [root + '/' + texts[0]] + texts[1:]     # an absolute pattern followed by relative ones in one list
+    elif absolute:
         texts = [root + '/' + t for t in texts]
     fl = FC.cfg_flags(cfg)
     pats = texts
-    if cfg.get('split') and len(texts) > 1:
+    if mixed:
+        pass
+    elif cfg.get('split') and len(texts) > 1:
         pats = '|'.join(texts)
     elif cfg.get('brace') and len(texts) > 1 and not any(',' in t or '{' in t or '}' in t for t in texts):
         pats = '{' + ','.join(texts) + '}'
@@ -74,7 +79,7 @@ def check_case(root, spec, pps, absolute, cfg, out, armed):
         problem = None
         if not os.path.lexists(full):
             problem = 'result does not exist'
-        elif absolute != os.path.isabs(e):
+        elif not mixed and bool(absolute) != os.path.isabs(e):
             problem = 'absolute/relative spelling does not follow the pattern'
         elif e.endswith('/') and not os.path.isdir(full):
             problem = 'trailing separator on a non-directory'
@@ -87,6 +92,8 @@ def check_case(root, spec, pps, absolute, cfg, out, armed):
             kw = FC.ref_kwargs(cfg)
             for pp in pps:
                 rel = e[len(root) + 1:] if absolute and e.startswith(root + '/') else e
+                if mixed:
+                    continue
                 ids |= K.path_classes(pp, W.strip_sep(rel) or '.', kw, True, R.MUSTNOT, A.render_path(pp))
             hit = sorted(ids & set(armed)) if problem == 'result does not exist' else []
             c = dict(case, problem=problem, name=e, result=res[:10])
@@ -112,6 +119,8 @@ def run_wf(desc):
         pps = [pp]
         if data.draw(st.integers(0, 2)) == 0:
             pps.append(data.draw(FC.st_pathpat(3, globstarlong=False, names=names)))
+        if absolute and len(pps) == 2 and data.draw(st.booleans()):
+            absolute = 'mixed'
         if absolute and cfg.get('matchbase'):
             cfg = {k: v for k, v in cfg.items() if k != 'matchbase'}
         if cfg.get('negate'):
@@ -119,7 +128,8 @@ def run_wf(desc):
             cfg = dict(cfg)
         with FC.built_tree(spec) as (root, _removed):
             out.stats['cases'] += 1
-            out.stats['absolute'] += absolute
+            out.stats['absolute'] += bool(absolute)
+            out.stats['mixed_absolute_relative'] += absolute == 'mixed'
             res = check_case(root, spec, pps, absolute, cfg, out, armed)
             if res is None:
                 return
@@ -128,11 +138,11 @@ def run_wf(desc):
                 full = e if os.path.isabs(e) else os.path.join(root, e)
                 kinds.add('l' if os.path.islink(full.rstrip('/')) else 'd' if os.path.isdir(full) else 'f')
             if 'l' in kinds or ('d' in kinds and 'f' in kinds):
-                out.nontrivial((tuple(map(tuple, spec)), tuple(A.render_path(p_) for p_ in pps), absolute, tuple(sorted(cfg))))
+                out.nontrivial((tuple(map(tuple, spec)), tuple(A.render_path(p_) for p_ in pps), str(absolute), tuple(sorted(cfg))))
             if out.stats['cases'] % 47 == 1:
                 out.sample({'tree': [e[1] + ('->' + e[2] if e[0] == 'l' else '/' if e[0] == 'd' else '') for e in spec],
                             'patterns': [A.render_path(p_) for p_ in pps], 'absolute': absolute, 'cfg': cfg,
-                            'result': [r if not absolute else r[len(root):] for r in res[:8]]})
+                            'result': [r if not r.startswith(root) else r[len(root):] for r in res[:8]]})
     test()
     return out
 
